@@ -833,6 +833,35 @@ def encode(layout, want_meta=False):
     return (bytes(out), meta) if want_meta else bytes(out)
 
 
+def relayout(img, endian):
+    """The decoded image `img` of a well-formed file as an encoder layout in byte order `endian`: the same chromosome table and
+    ids, the same records block by block, the same summary, autoSql, field counts and zoom records, the same index fan-out.
+    encode(relayout(decode(data, bits=True), "big")) is "the same file as a big-endian machine would hold it"."""
+    h, ct = img["header"], img["chromTree"]
+    lay = {"kind": img["kind"], "endian": endian, "version": h["version"], "compress": h["uncompressBufSize"] > 0,
+           "chroms": [[c["key"], c["size"]] for c in ct["chroms"]], "ids": [c["id"] for c in ct["chroms"]],
+           "chromTreeBlockSize": max(ct["blockSize"], 1), "keySize": ct["keySize"], "chromTreeFirst": h["chromTreeOffset"] < h["fullDataOffset"],
+           "rtree": {"blockSize": img["index"]["blockSize"], "itemsPerSlot": img["index"]["itemsPerSlot"]},
+           "summary": img["summary"], "dataCount": img["dataCount"], "fieldCount": h["fieldCount"], "definedFieldCount": h["definedFieldCount"]}
+    if img.get("autoSql") is not None:
+        lay["autoSql"] = img["autoSql"]
+    secs = []
+    for b in img["blocks"]:
+        if img["kind"] == "bigwig":
+            sec = b["section"]
+            secs.append({"chrom": sec["chrom"], "type": 1, "start": sec["start"], "end": sec["end"], "items": [[it[0], it[1], it[2]] for it in b["items"]]})
+        else:
+            secs.append({"items": [[it[0], it[1], it[2], it[3]] for it in b["items"]]})
+    lay["sections"] = secs
+    zooms = []
+    for z in img.get("zooms", []):
+        recs = [list(it) for b in z["blocks"] for it in b["items"]]
+        zooms.append({"reduction": z["reduction"], "records": recs, "itemsPerBlock": max([len(b["items"]) for b in z["blocks"]] + [1]),
+                      "rtree": {"blockSize": z["index"]["blockSize"], "itemsPerSlot": z["index"]["itemsPerSlot"]}})
+    lay["zooms"] = zooms
+    return lay
+
+
 # ----------------------------------------------------------------------------------------------
 # Command line
 # ----------------------------------------------------------------------------------------------
